@@ -113,6 +113,29 @@ void h_tick(void) {
     V_WITNESS("h_tick end");
 }
 
+/* C13 at tick level: the end-of-block path of the periodic tick (statistics update + rescheduling), also when the
+ * Hello timer is served in the same tick */
+static uint32_t ref_ni13(uint32_t r) { if (r >= 15) return 10000u; uint32_t v = 45u * r * r; return v > 10000u ? 10000u : v; }
+void h_tick_block(void) {
+    build();
+    for (int i = 0; i < N; i++) V_ASSUME(in.tab.entries[i].last_activity_ts < (1ull << 62));
+    V_ASSUME(in.band.Ni >= 45 && in.band.Ni <= 10000);
+    V_ASSUME(in.band.hello_timeout_ts < (1ull << 62) && in.band.block_timeout_ts < (1ull << 62));
+    automata_tick(in.have_map ? M : 0, E, in.have_tab ? T : 0, &P);
+    bool block_due = E->current_state == 1 && in.band.block_timeout_ts > 0 && in.now_ms >= in.band.block_timeout_ts;
+    if (block_due) {
+        bool begun_then = in.band.begun || g_hello_calls == 1 || B->begun;   /* a Hello sent in this tick starts enumeration */
+        if (in.band.r > 0 && begun_then) V_ASSERT(B->Ni == ref_ni13(in.band.r), "C13: at the end of a block with r > 0 Hellos heard the count becomes min(NMAX, ALPHA*r^BETA) (tick path)");
+        V_ASSERT(B->Ni >= 45 && B->Ni <= 10000, "C13: count stays within [ALPHA, NMAX] (tick path)");
+        V_ASSERT(B->r == 0, "C13: r restarts with the new block (tick path)");
+        uint64_t need = (80ull * B->Ni + 29) / 30; if (need < 6) need = 6;
+        V_ASSERT(B->hello_timeout_ts >= in.now_ms + need, "C13: after the end of a block the next Hello is scheduled no sooner than the load formula for the new count allows, also when a Hello was sent in the same tick");
+        V_ASSERT(B->block_timeout_ts == in.now_ms + 300, "C13: next block ends BLOCK_TIME later (tick path)");
+        V_WITNESS("block end reached");
+    }
+    V_WITNESS("h_tick_block end");
+}
+
 /* every other public operation: cannot send, cannot touch the timestamp */
 void h_others(void) {
     build();
